@@ -1,6 +1,8 @@
 //! Replays witnesses and runs fidelity / witness-search batteries against the REAL crates
 //! in /repo (path dependencies).  Built with debug assertions and overflow checks.
+mod k3;
 mod k7;
+mod k8;
 mod v1;
 
 fn main() {
@@ -10,7 +12,11 @@ fn main() {
         "fidelity-v1" => v1::fidelity(args.get(2).and_then(|s| s.parse().ok()).unwrap_or(3)),
         "witness-v1" => v1::witness(args.get(2).and_then(|s| s.parse().ok()).unwrap_or(4)),
         "replay-v1" => v1::replay(&args[2]),
+        "witness-k3" => k3::witness(),
+        "replay-k3" => k3::replay(&args[2]),
         "witness-k7" => k7::witness(),
+        "witness-k8" => k8::witness(),
+        "replay-k8" => k8::replay(&args[2]),
         "replay-k7" => k7::replay(&args[2]),
         _ => {
             eprintln!("usage: verif_replay <fidelity-v1|witness-v1|replay-v1> ..");
